@@ -13,6 +13,13 @@ SPEC = "Ledger"
 # ---------------------------------------------------------------------------------------------
 # helpers (candidates for lib/core.py: parallel TLC jobs, behaviour replay with stats, corruption self-test)
 
+def _rm(p):
+    try:
+        os.unlink(p)
+    except FileNotFoundError:
+        pass
+
+
 def _parallel(jobs):
     """jobs: list of (fn, args, kwargs); runs them concurrently (TLC workers are set per job), returns results in order."""
     with ThreadPoolExecutor(max_workers=max(1, len(jobs))) as ex:
@@ -62,7 +69,7 @@ def _replay(ctx, behs, probe=True, record=True):
     p = ctx.wpath("ledger-beh-%d.ndjson" % len(behs))
     write_ndjson(p, behs)
     rc, out = vh(BIN, ["ledger", "replay", "probe=%d" % (1 if probe else 0)], stdin_path=p, timeout=7200)
-    os.unlink(p)
+    _rm(p)
     mism, stats, done = [], {}, None
     for line in out.splitlines():
         o = json.loads(line)
@@ -188,14 +195,14 @@ def _finish(ctx, behs, rule, extra_samples=()):
 def C09(ctx):
     q = ctx.quick
     behs = _run(ctx,
-                [("MCLedgerCore", {"MaxInstr": 5 if q else 6}, ALL_OPS_CORE),
-                 ("MCLedgerCoreNF", {"MaxInstr": 4 if q else 5}, ALL_OPS_CORE + NF_OPS_CORE)],
+                [("MCLedgerCore", {"MaxInstr": 5 if q else 8}, ALL_OPS_CORE),
+                 ("MCLedgerCoreNF", {"MaxInstr": 4 if q else 6}, ALL_OPS_CORE + NF_OPS_CORE)],
                 [("exh", "GenLedgerTiny", 0, 0, None), ("exh", "GenLedgerTinyNF", 0, 0, None),
                  ("sim", "SimLedger", 1000 if q else 12000, 12, None)] +
                 ([] if q else [("sim", "SimLedgerAll", 8000, 12, None)]))
     return _finish(ctx, behs,
-                   "S: TLC checks on every reachable state/transition of Ledger.tla (fungible core, <= 5/6 instructions, and fungible + "
-                   "non-fungible core, <= 4/5 instructions; 2 accounts, 2 bucket names) InTxConservation (vaults + worktop + buckets = "
+                   "S: TLC checks on every reachable state/transition of Ledger.tla (fungible core, <= 5/8 instructions, and fungible + "
+                   "non-fungible core, <= 4/6 instructions; 2 accounts, 2 bucket names) InTxConservation (vaults + worktop + buckets = "
                    "before + minted - burned; every id in exactly one container), NoEmptyWorktopBucket, SuccessClean, TakeExact, "
                    "TakeShortFails, TakeEnoughSucceeds, AssertExact, UseAfterConsume. G: %(n)d model manifests (all manifests of <= 2 "
                    "instructions of two tiny instances + seeded simulated manifests of up to 8 instructions over %(kinds)d instruction "
@@ -208,8 +215,8 @@ def C09(ctx):
 def C03(ctx):
     q = ctx.quick
     behs = _run(ctx,
-                ([] if q else [("MCLedgerCore", {"MaxInstr": 6}, ALL_OPS_CORE)]) +
-                [("MCLedgerCoreNF", {"MaxInstr": 4 if q else 5}, ALL_OPS_CORE + NF_OPS_CORE)],
+                ([] if q else [("MCLedgerCore", {"MaxInstr": 8}, ALL_OPS_CORE)]) +
+                [("MCLedgerCoreNF", {"MaxInstr": 4 if q else 6}, ALL_OPS_CORE + NF_OPS_CORE)],
                 [("sim", "SimLedgerAll", 800 if q else 12000, 12, None),
                  ("sim", "SimLedgerFG", 400 if q else 5000, 12, None)] +
                 ([] if q else [("exh", "GenLedgerTiny", 0, 0, None), ("sim", "SimLedgerHist", 2500, 24, None)]))
@@ -234,7 +241,7 @@ def C10(ctx):
                  ("MCLedgerProofsNF", {"MaxInstr": 4 if q else 6}, PROOF_OPS_NF)],
                 [("exh", "GenLedgerTinyProofs", 0, 0, None),
                  ("sim", "SimLedgerProofs", 1500 if q else 25000, 14, None)] +
-                ([] if q else [("sim", "SimLedgerFG", 4000, 12, None)]),
+                ([] if q else [("sim", "SimLedgerFG", 4000, 12, None), ("sim", "SimLedgerH", 3000, 14, None)]),
                 quick_cap=1200)
     return _finish(ctx, behs,
                    "S: TLC checks on every interleaving of proof creation (account vault / bucket; amount / ids / all), cloning, "
@@ -243,7 +250,7 @@ def C10(ctx):
                    "amount/ids stay in the named container), TotalUnchangedByLocks (max-of-locks accounting), OnlyLiquidLeaves, "
                    "UnlockedIsLiquid, NoLocksOutsideTx, DivisibilityState/Args. G: %(n)d model manifests (all manifests of <= 3 proof "
                    "instructions of a tiny instance + seeded manifests of up to 10 instructions weighted towards overlapping proofs; "
-                   "divisibility 2 and 0 with amounts of one digit too many) executed on the real ledger: outcome, error class, failing index "
+                   "divisibility 2 and 0 with amounts of one digit too many, thorough: also 18) executed on the real ledger: outcome, error class, failing index "
                    "and all balances compared. %(ok)d of %(txs)d commit. distinct = distinct manifests with >= 2 instructions",
                    extra_samples=[lambda b: sum(1 for i in b["txs"][-1]["ins"] if "Proof" in i["op"]) >= 3])
 
@@ -371,9 +378,9 @@ def _trace_supply(ctx, res, conservation):
                           "database snapshot trace (%s) rejected at event %s: supply / vault sums / event replay / conservation"
                           % (mode, idx), {"trace_module": "TraceLedgerSupply", "first_unmatched": idx, "args": args,
                                           "context": evs[lo:(idx or 1)], "tlc_violated": r.violated})
-        os.unlink(p)
+        _rm(p)
     for (how, p, at), (ok, idx, r) in zip(corrupted, vres[len(recs):]):
-        os.unlink(p)
+        _rm(p)
         if ok or idx != at + 1:
             raise ToolError("self-test: corrupted snapshot trace (%s at event %d) gave accepted=%s first_unmatched=%s" % (how, at + 1, ok, idx))
     tx_ev = next(e for e in recs[0][1] if e["a"] == "tx" and e["ok"] and e["mint"])
